@@ -4,16 +4,20 @@ import (
 	"bytes"
 	"encoding/binary"
 	"fmt"
+	"io"
 	"os"
 	"path/filepath"
 	"runtime"
+	"sort"
 	"sync"
+	"sync/atomic"
 	"testing"
 	"time"
 
 	"p9verif/evid"
 	"p9verif/peers"
 	"p9verif/refcodec"
+	"p9verif/vconn"
 
 	"github.com/hugelgupf/p9/p9"
 	"pgregory.net/rapid"
@@ -432,6 +436,110 @@ func genRawStream(rt *rapid.T) rawStreamCase {
 	return rawStreamCase{Data: data, Msize: rapid.SampledFrom([]uint32{c02Msize, 4096, 256, 4 << 20, 7, 8, 4<<20 + 1, 8 << 20, 1<<32 - 1}).Draw(rt, "msize")}
 }
 
+// --- the same streams through a real socket (vectorised receive path) ------------------
+//
+// The bytes are delivered over an AF_UNIX socket in the chunks given by the
+// split points; the receiver must report, frame by frame, exactly what it
+// reports when it reads the same bytes from memory - and must not panic.
+
+type sockStreamCase struct {
+	Data   []byte `json:"data"`
+	Msize  uint32 `json:"msize"`
+	Splits []int  `json:"splits"`
+}
+
+type recvStep struct {
+	tag   uint16
+	typ   uint8
+	canon string
+	kind  int
+}
+
+func recvAll(r io.Reader, msize uint32, limit int) (steps []recvStep, panicked string) {
+	for len(steps) < limit {
+		var st recvStep
+		var canon []byte
+		func() {
+			defer func() {
+				if p := recover(); p != nil {
+					panicked = fmt.Sprint(p)
+				}
+			}()
+			st.tag, st.typ, canon, st.kind, _ = p9.VerifRecvReencode(r, msize)
+		}()
+		if panicked != "" {
+			return steps, panicked
+		}
+		st.canon = string(canon)
+		steps = append(steps, st)
+		if st.kind == 2 {
+			return steps, ""
+		}
+	}
+	return steps, ""
+}
+
+func runSockStreamCase(c sockStreamCase) *fail {
+	want, wp := recvAll(bytes.NewReader(c.Data), c.Msize, 64)
+	if wp != "" {
+		return failf("decoder-panic", "the receiver panicked reading the stream from memory: %s", wp)
+	}
+	sock, err := vconn.NewSock()
+	if err != nil {
+		return failf("harness-sock", "HARNESS-ERROR %v", err)
+	}
+	defer sock.Close()
+	sock.Conn.SetReadDeadline(time.Now().Add(30 * time.Second))
+	type out struct {
+		steps []recvStep
+		p     string
+	}
+	done := make(chan out, 1)
+	var stopped int32
+	go func() {
+		st, p := recvAll(sock.Conn, c.Msize, 64)
+		atomic.StoreInt32(&stopped, 1)
+		done <- out{st, p}
+	}()
+	prev := 0
+	cuts := append(append([]int{}, c.Splits...), len(c.Data))
+	sort.Ints(cuts)
+	for _, sp := range cuts {
+		if sp <= prev || sp > len(c.Data) {
+			continue
+		}
+		// the receiver may stop reading for good (a fatal size field): then the rest is not delivered
+		ok, derr := sock.DeliverUntil(c.Data[prev:sp], 10*time.Second, func() bool { return atomic.LoadInt32(&stopped) != 0 })
+		if derr != nil {
+			return failf("reader-stalled", "the receiver did not take bytes %d..%d of the stream: %v", prev, sp, derr)
+		}
+		if !ok {
+			break
+		}
+		prev = sp
+	}
+	sock.CloseWrite()
+	var got out
+	select {
+	case got = <-done:
+	case <-time.After(20 * time.Second):
+		return failf("reader-stalled", "the receiver did not finish after the stream had ended")
+	}
+	if got.p != "" {
+		return failf("decoder-panic:socket", "the receiver panicked on the socket path (chunks at %v): %s", c.Splits, got.p)
+	}
+	for i := range want {
+		if i >= len(got.steps) {
+			return failf("socket-path-differs", "from memory the receiver reports %d frames/errors, over the socket (chunks at %v) only %d", len(want), c.Splits, len(got.steps))
+		}
+		w, g := want[i], got.steps[i]
+		if w.kind != g.kind || (w.kind == 0 && (w.tag != g.tag || w.typ != g.typ || w.canon != g.canon)) {
+			return failf("socket-path-differs", "frame %d: from memory kind=%d type=%d tag=%d (%d bytes), over the socket (chunks at %v) kind=%d type=%d tag=%d (%d bytes)", i, w.kind, w.typ, w.tag, len(w.canon), c.Splits, g.kind, g.typ, g.tag, len(g.canon))
+		}
+	}
+	return nil
+}
+
 var fuzzRun *evid.Run
 var fuzzRunOnce sync.Once
 
@@ -678,6 +786,7 @@ func runAllocCase(size uint32, msize uint32) *fail {
 func init() {
 	replayRegistrars = append(replayRegistrars, func() {
 		registerReplay("C02/server-stream", func(c streamCase) *fail { return runStreamCase(c, nil) })
+		registerReplay("C02/socket-stream", runSockStreamCase)
 		registerReplay("C02/stream", func(c rawStreamCase) *fail { return checkStream(c.Data, c.Msize) })
 		registerReplay("C02/client-recv", runClientRecvCase)
 	})
@@ -780,6 +889,36 @@ func TestC02(t *testing.T) {
 		return f
 	})
 
+	rapidCases(h, "socket-stream", env.PerShard(env.Pick(4000, 200000)), func(rt *rapid.T) sockStreamCase {
+		rc := genRawStream(rt)
+		c := sockStreamCase{Data: rc.Data, Msize: rc.Msize}
+		// split points: frame-internal boundaries (after the header, after 4/8/16 more bytes) and random ones
+		off := 0
+		for off+7 <= len(c.Data) && len(c.Splits) < 12 {
+			sz := int(binary.LittleEndian.Uint32(c.Data[off:]))
+			if sz < 7 || off+sz > len(c.Data) {
+				break
+			}
+			for _, d := range []int{7, 11, 15, 23, 27, sz - 1} {
+				if d > 0 && d < sz && rapid.IntRange(0, 3).Draw(rt, "pick") == 0 {
+					c.Splits = append(c.Splits, off+d)
+				}
+			}
+			off += sz
+		}
+		for k := rapid.IntRange(0, 3).Draw(rt, "nrand"); k > 0 && len(c.Data) > 1; k-- {
+			c.Splits = append(c.Splits, rapid.IntRange(1, len(c.Data)-1).Draw(rt, "rs"))
+		}
+		sort.Ints(c.Splits)
+		return c
+	}, func(c sockStreamCase) *fail {
+		var sp []uint32
+		for _, x := range c.Splits {
+			sp = append(sp, uint32(x))
+		}
+		h.Case(evid.Hash64(c.Data, u32b(c.Msize), u32b(sp...)), len(c.Splits) > 0, "socket-stream")
+		return runSockStreamCase(c)
+	})
 	rapidCases(h, "client-recv", env.PerShard(env.Pick(2400, 60000)), genClientRecvCase, func(c clientRecvCase) *fail {
 		h.Danger("client-recv", "client-panic", "the client process died while receiving a reply", c)
 		f := runClientRecvCase(c)
